@@ -90,10 +90,16 @@ for sid, (prop, change, needs) in T.items():
                 origin='written by an independent sub-agent that saw only the property text and its own worktree',
                 validated='tools/validate_seed.sh: applies, builds without warnings, `make check` exit 0 with the change, demo exits 0 on the unchanged tree and non-zero on the changed one',
                 check_runs=runs)
-    if sid == 'C05-a':
-        meta['note'] = ('quick tier: UNDECIDED (exit 2) - the is_ipv6 job runs into the 840 s quick budget / 30 GB on this change; '
-                        'the log kept here is the thorough-tier run (tools/run_seed.sh C05-a C05 --tier thorough --only is_ipv6), which refutes strspn.assertion.1 after 38 minutes')
-    if sid in ('C09-b', 'C17-b'):
-        meta['note'] = 'missed (check passed, exit 0) by the machinery as it was when the seed was written; the contract gap it exposed was closed (DESIGN.md 11.4) and the log kept here is the run after that'
+    NOTES = {
+        'C05-a': 'quick tier: UNDECIDED (exit 2) - the is_ipv6 job runs into the quick time budget / 30 GB on this change; the log kept here is the thorough-tier run (tools/run_seed.sh C05-a C05 --tier thorough --only is_ipv6), which refutes strspn.assertion.1 after 38 minutes',
+        'C09-b': 'missed (check passed, exit 0) by the machinery as it was when the seed was written; the contract gap it exposed was closed (DESIGN.md 11.4) and the log kept here is the run after that',
+        'C17-b': 'missed (check passed, exit 0) by the machinery as it was when the seed was written; the contract gap it exposed was closed (DESIGN.md 11.4) and the log kept here is the run after that',
+        'C01-c': 'verifier undecided (new loop without contract); reported as VIOLATION through the replay-oracle fallback once the oracle had a 6531 e-mail kind (concrete input u@d.xn--0, tld_check off)',
+        'C02-c': 'verifier undecided (new loop without contract); reported as VIOLATION through the replay-oracle fallback (concrete input, see replays/)',
+        'C07-c': 'verifier undecided (new loop without contract); reported as VIOLATION through the replay-oracle fallback (concrete input, see replays/)',
+        'C16-c': 'caught by the thorough tier only (EAV_EXTRA jobs): tools/run_seed.sh C16-c C16 --tier thorough --only email_5321_literal+extra,email_5321_host+extra',
+    }
+    if sid in NOTES:
+        meta['note'] = NOTES[sid]
     json.dump(meta, open(os.path.join(d, 'meta.json'), 'w'), indent=1, ensure_ascii=False)
     print(sid, prop, [r['outcome'] for r in runs])
